@@ -77,7 +77,8 @@ def _random_history(args):
     seed, rid, nsteps = args
     from harness import c18_driver as D
     rng = random.Random(seed)
-    start = {"A": rng.choice([1, 2, 7, 300, 4242, 30000, 60000]), "B": rng.choice([1, 9, 500, 61000])}
+    start = {"A": rng.choice([1, 2, 7, 100, 300, 4242, 30000, 60000, 65436, 65437, 65500, 65534, 65535]),
+             "B": rng.choice([1, 9, 500, 61000, 65480])}
     keys = {"A": rng.random() < 0.85, "B": rng.random() < 0.85}
     keys0 = dict(keys)
     w = D.new_world(start, keys, tag=str(seed))
@@ -95,7 +96,7 @@ def _random_history(args):
             other = "B" if p == "A" else "A"
             cls = rng.choice(["next", "next", "ahead", "ahead", "edge", "beyond", "same", "old", "wrongkey", "foreignkey",
                               "wrongaad", "reroute", "toX", "payload", "tag", "inner", "trunc", "replay", "replay",
-                              "otheraddr", "unknownid", "unknownid"])
+                              "otheraddr", "unknownid", "unknownid", "low", "low"])
             if cls == "replay" and hist:
                 a, bit, trunc = rng.choice(hist)
                 if rng.random() < 0.3:
@@ -105,7 +106,11 @@ def _random_history(args):
                 d = {"next": 1, "ahead": rng.randrange(2, 99), "edge": rng.choice([98, 99]), "beyond": rng.choice([100, 101, 150, 1000]),
                      "same": 0, "old": -rng.choice([1, 2, 50, 99, 100, 1000])}.get(cls, rng.choice([1, 1, 2, 5, 99]))
                 n = lastp + d
-                if n < 0 or n > 65535:
+                if cls == "low":                 # a recording from early in the key epoch
+                    n = rng.choice([1, 2, 5, rng.randrange(1, 105), 104])
+                elif n > 65535:                  # what a wrapped counter would send: last+d - 65535 (1 .. 104)
+                    n = n - 65535 if rng.random() < 0.7 else 65535
+                elif n < 0:
                     n = lastp + 1
                 a = {"from": p, "to": p, "k": p, "aad": p, "n": n, "g": n, "iid": rng.randrange(1, len(D.FORMATS) + 1),
                      "val": rng.randrange(1, D.NVALS + 1), "dmg": "none"}
@@ -153,13 +158,13 @@ def _bit_sweep(args):
     seed, rid = args
     from harness import c18_driver as D
     rng = random.Random(seed)
-    start = {"A": rng.choice([1, 77, 12345]), "B": 5}
+    start = {"A": rng.choice([1, 77, 12345, 65500]), "B": 5}
     keys = {"A": True, "B": True}
     w = D.new_world(start, keys, tag=str(seed))
     events = []
     try:
         d = rng.choice([1, 1, 2, 50, 99])
-        n = start["A"] + d
+        n = min(start["A"] + d, 65535)
         base = {"from": "A", "to": "A", "k": "A", "aad": "A", "n": n, "g": n, "iid": rng.randrange(1, len(D.FORMATS) + 1),
                 "val": rng.randrange(1, D.NVALS + 1), "dmg": "none"}
         for rnd in range(2):
@@ -291,18 +296,31 @@ def run(ctx):
         deep = _cfg(tmp, "BleBroadcast_deep.cfg", (("MaxSteps = 6", "MaxSteps = 7"),) if ctx.thorough else ())
         ctx.tlc("ble/BleBroadcast", deep, ignore_cover=("InstallKey",), label="W=3, one pairing, histories <= 6/7, exhaustive",
                 timeout=900)
-        real = _cfg(tmp, "BleBroadcast_real.cfg", () if ctx.thorough else (("MaxSteps = 3", "MaxSteps = 2"),))
-        ctx.tlc("ble/BleBroadcast", real, label="W=99, offsets of the quantifier, exhaustive", timeout=1500)
+        real = _cfg(tmp, "BleBroadcast_real.cfg", () if ctx.thorough else (("MaxSteps = 3", "MaxSteps = 2"),
+                                                                           ("Starts = {1000, 65500}", "Starts = {65500}")))
+        ctx.tlc("ble/BleBroadcast", real, ignore_cover=("InstallKey",), timeout=1500,
+                label="W=99, offsets of the quantifier + early recordings, last starting at 65500 (thorough: and 1000), exhaustive")
         # ---------------- (B) histories from TLC
         cases_out = os.path.join(tmp, "cases.ndjson")
-        ccfg = _cfg(tmp, "BleBroadcast_Cases.cfg", (("CaseDepth = 2", "CaseDepth = 3"),) if ctx.thorough else ())
-        ctx.tlc("ble/BleBroadcast_Cases", ccfg, env={"CASES_OUT": cases_out}, label="case export (W=99)", timeout=1500,
-                require_cover=False)
+        ctx.tlc("ble/BleBroadcast_Cases", _cfg(tmp, "BleBroadcast_Cases.cfg"), env={"CASES_OUT": cases_out},
+                label="case export (W=99): histories <= 2 from last in {1, 2, 100, 65436, 65437, 65500, 65534, 65535}",
+                timeout=1500, require_cover=False)
         jobs = _jobs_from_cases(cases_out)
+        if ctx.thorough:
+            cases3 = os.path.join(tmp, "cases3.ndjson")
+            ccfg = _cfg(tmp, "BleBroadcast_Cases.cfg", (("CaseDepth = 2", "CaseDepth = 3"),
+                                                        ("Starts = {1, 2, 100, 65436, 65437, 65500, 65534, 65535}", "Starts = {300, 65500}")),
+                        out="cases3.cfg")
+            ctx.tlc("ble/BleBroadcast_Cases", ccfg, env={"CASES_OUT": cases3}, timeout=2400, require_cover=False,
+                    label="case export (W=99): histories <= 3 from last in {300, 65500}")
+            more = _jobs_from_cases(cases3)
+            for j in more:
+                j["id"] = "d3" + j["id"]
+            jobs += more
         if not jobs:
             raise MachineryError("no cases exported")
         ncases = len(jobs)
-        jobs += _jobs_from_behaviours(ctx, tmp, ctx.pick(25, 150), ctx.pick(10, 12))
+        jobs += _jobs_from_behaviours(ctx, tmp, ctx.pick(20, 150), ctx.pick(10, 12))
         nbeh = len(jobs) - ncases
         if nbeh == 0:
             raise MachineryError("no behaviours produced by tlc -simulate")
